@@ -16,6 +16,8 @@ pub enum Sym {
     Short,
     Rep { r: u8, n: u32 },
     Eos,
+    /// end marker carrying a length other than the usual 2 (the marker is defined by its distance alone)
+    Eosn { n: u32 },
 }
 
 /// Table ids, same names as the strings in LzmaCoding.tla
@@ -162,6 +164,12 @@ fn dist_d(out: &mut Vec<Dec>, len_state: u32, d0: u32) {
     }
 }
 
+fn eos_dist_dn(out: &mut Vec<Dec>, n: u32) {
+    tree_d(out, T::PosSlot, (n - 2).min(3), 6, 63);
+    direct_d(out, 26, (1 << 26) - 1);
+    rev_tree_d(out, T::Align, 0, 4, 15);
+}
+
 fn eos_dist_d(out: &mut Vec<Dec>) {
     tree_d(out, T::PosSlot, 0, 6, 63);
     direct_d(out, 26, (1 << 26) - 1);
@@ -267,7 +275,7 @@ impl CS {
             Sym::Match { d, .. } => d <= n,
             Sym::Short => self.rep[0] + 1 <= n,
             Sym::Rep { r, .. } => self.rep[r as usize] + 1 <= n,
-            Sym::Eos => true,
+            Sym::Eos | Sym::Eosn { .. } => true,
         }
     }
 
@@ -329,6 +337,12 @@ impl CS {
                 len_d(&mut o, false, ps, 0);
                 eos_dist_d(&mut o);
             }
+            Sym::Eosn { n } => {
+                o.push(one(T::IsMatch, st, ps, 1));
+                o.push(one(T::IsRep, st, 0, 0));
+                len_d(&mut o, false, ps, n - 2);
+                eos_dist_dn(&mut o, n);
+            }
         }
         o
     }
@@ -369,7 +383,7 @@ impl CS {
                 self.st = rep_next(self.st);
                 self.copy(d0 + 1, n);
             }
-            Sym::Eos => {}
+            Sym::Eos | Sym::Eosn { .. } => {}
         }
     }
 }
